@@ -11,6 +11,9 @@ import os
 
 from ..core import scratch_dir, rm, pmap
 from .. import audit
+from . import c09
+
+preimport = c09.preimport  # the concurrent part runs under the controlled scheduler (vf/sched.py)
 
 KEYSETS = [[], ["a"], ["a", "b"], ["b", "c"], ["a", "b", "c"]]
 
@@ -167,6 +170,41 @@ def case(args):
     return out
 
 
+def extend_case(args):
+    from ..fixtures import c17fx as fx
+
+    kind, keys, pre = args
+    specs = [{"keys": keys, "kind": "disk"}]
+    top = scratch_dir("c17e")
+    out = {"evaluations": 1, "states": 1, "transitions": 3, "traces": 1, "violations": [], "outcomes": ["extend|%s|%s|%s" % (kind, keys, pre)]}
+    try:
+        root = os.path.join(top, "s")
+        use(mk(kind, root), top)
+        want = {k: fx.value(0, k) for k in keys}
+        want.update({"b": "replaced-b", "z": ["added", 1]})
+        bad = None
+        try:
+            if pre:
+                fx.part(0, specs)  # the extended partition then starts from the object the cache / the store returns
+            bad = check_partition(fx.extend(specs), want, "returned")
+            if bad is None:
+                use(mk(kind, root) if kind != "mem" else mk(kind, root), top) if kind != "mem" else None
+                audit.bodies_reset()
+                again = fx.extend(specs)
+                if kind != "mem" and [b for b in audit.bodies() if b[0] == "extend"]:
+                    bad = ("not-stored", "second call through a fresh backend ran the body again")
+                else:
+                    bad = check_partition(again, want, "read-back")
+        except Exception as e:
+            bad = ("raised", "raised %r" % (e,))
+        if bad:
+            out["violations"].append(("%s|extend-partition-of-a-call|premem:%s|%s" % (kind, pre, bad[0]), bad[1] + "\nbackend=%s keys=%s level 0 memoized before: %s" % (kind, keys, pre),
+                                      {"extend": [kind, keys, pre]}))
+    finally:
+        rm(top)
+    return out
+
+
 def run(ctx):
     thorough = ctx.tier == "thorough"
     maxL = 3 if thorough else 2
@@ -206,12 +244,31 @@ def run(ctx):
     b = case(tasks[len(tasks) // 2])
     ctx.selfcheck("one case gives identical observations twice", a["violations"] == b["violations"])
     ctx.merge(pmap(case, tasks, chunksize=8))
+    # (with a cache-less store a memoized level 0 comes back as a read-only stored partition: nothing to extend)
+    et = [(kind, ks, pre) for kind in ("fs", "fsc", "mem") for ks in KEYSETS for pre in (False, True) if not (pre and kind == "fs")]
+    ctx.merge(pmap(extend_case, et, chunksize=2))
+    ctx.rule += " Plus: a function that takes the on-disk partition returned by a memoized call, replaces an entry, adds one and returns it."
+    # two threads storing partitions at the same time: each must read back with its own keys and values
+    cs = [("fs|cold|two-partitions", "fs", "cold", [[("pa", 1)], [("pb", 1)]]),
+          ("fs+cache-one|cold|two-partitions", "fs+cache-one", "cold", [[("pa", 1)], [("pb", 1)]])]
+    if thorough:
+        cs.append(("fs|cold|same-partition-twice", "fs", "cold", [[("pa", 1)], [("pa", 1)]]))
+    c09.concurrent_part(ctx, cs, "readback", "two threads memoizing partition results at the same time, then everything read back through a "
+                        "fresh backend", bound=2 if thorough else 1, gran="full" if not thorough else "runner")
     ctx.extra["cases"] = len(tasks)
     ctx.sample({"case": list(tasks[len(tasks) // 2])})
     ctx.sample({"case": list(tasks[-1])})
 
 
 def replay(ctx, art):
+    if "scn" in art["artefact"]:
+        return c09.replay_concurrent("C17", art)
+    if "extend" in art["artefact"]:
+        r = extend_case(tuple(art["artefact"]["extend"]))
+        for v in r["violations"]:
+            print(v[0], "\n", v[1])
+        print("REPLAY property=C17 result=%s" % bool(r["violations"]))
+        return 1 if r["violations"] else 0
     c = art["artefact"]["case"]
     r = case(tuple(c))
     for v in r["violations"]:
